@@ -32,10 +32,14 @@ def ship(result):
     os._exit(0)
 
 
-def run_in_child(fn, arg, cpu_s=60, as_bytes=4 << 30, wall_s=600):
+def run_in_child(fn, arg, cpu_s=60, as_bytes=4 << 30, wall_s=600, as_extra=None):
     """Run fn(arg) in a forked child.  Returns (status, result):
-    status in 'ok' | 'cpu' | 'mem' | 'signal:<n>' | 'exit:<n>' | 'wall' | 'noreply'."""
+    status in 'ok' | 'cpu' | 'mem' | 'signal:<n>' | 'exit:<n>' | 'wall' | 'noreply'.
+    as_extra: address-space budget relative to what the worker maps at the fork (bytes on top of it)."""
     global _child_pipe
+    if as_extra is not None:
+        with open("/proc/self/statm") as f:
+            as_bytes = int(f.read().split()[0]) * os.sysconf("SC_PAGE_SIZE") + as_extra
     r, w = os.pipe()
     sys.stdout.flush()
     sys.stderr.flush()
